@@ -5,7 +5,9 @@
 // The real internal/net sender (reached through IpfsDHT.MessageSender()) talks
 // over scheduler-owned byte pipes to scripted remote peers that answer every
 // request with an echo of the WHOLE request (type, key and record), the way a
-// real server answers PUT_VALUE. The identity of a request is carried in its
+// real server answers PUT_VALUE, plus closer-peer and provider-peer lists
+// whose length and entries depend on the request (c11Echo), the way a real
+// server answers FIND_NODE / GET_PROVIDERS. The identity of a request is carried in its
 // record value; its key is either unique or drawn from a small pool shared by
 // all requests of the run, so concurrent requests to one peer may agree in
 // type and key and differ only in their payload.
@@ -18,6 +20,15 @@
 //	                        to a caller echoes the payload of the caller's own
 //	                        request, not that of a sibling (also a sibling with an
 //	                        equal type and key).
+//	reply-altered           "each response returned by the message sender is the
+//	                        remote peer's reply to that very request": the reply,
+//	                        whole - type, key, record, closer peers, provider
+//	                        peers - and nothing but that reply. The returned
+//	                        message is compared field by field with the one
+//	                        message the remote wrote in answer to that request;
+//	                        anything added (left over from a frame of an earlier,
+//	                        failed attempt, or from another exchange), dropped or
+//	                        changed is a violation.
 //	reply-without-exchange  same clause, the other direction: a request that the
 //	                        sender acknowledged with a reply was received by the
 //	                        remote peer, and the remote wrote an answer to it.
@@ -67,8 +78,11 @@
 // the remote received: instead of (or before) its honest reply it writes a
 // junk frame - well delimited but not a DHT message (invalid wire data, a
 // field that runs past the end of the frame, a string field that is not
-// UTF-8) or a length prefix no message can have - or it silently forgets the
-// request. Junk may be followed by the honest reply on the same stream; a
+// UTF-8), a "damaged reply" (a frame that starts like a genuine reply -
+// type, key, record, closer peers, provider peers all decodable - and then
+// breaks off: a field that runs past the end of the frame, or the honest reply
+// cut short by a few bytes) or a length prefix no message can have - or it
+// silently forgets the request. Junk may be followed by the honest reply on the same stream; a
 // sender that kept the stream after the failed exchange would hand that reply
 // to the next request.
 //
@@ -114,7 +128,8 @@ func init() {
 		Faults: []string{"fault_reply_late", "fault_stream_reset", "fault_cancel", "fault_open_fail", "fault_disconnect", "fault_remote_eof", "fault_split_chunk", "fault_write_error", "time_advance", "probe_timeout_hit", "probe_stream_reused", "probe_retry_stream", "probe_late_reply_after_timeout",
 			"fault_disconnect_stale", "probe_disconnect_inflight", "probe_disconnect_queued", "probe_same_key_concurrent", "probe_epilogue_after_disconnect",
 			"fault_junk_frame", "fault_request_forgotten", "fault_long_stall", "probe_junk_then_reply", "probe_junk_made_sender_reset", "probe_decode_error_returned",
-			"probe_deadline_request", "probe_stall_under_far_deadline", "probe_deadline_expired"},
+			"probe_deadline_request", "probe_stall_under_far_deadline", "probe_deadline_expired",
+			"fault_damaged_reply", "probe_success_after_damaged_reply", "probe_reply_peers_compared"},
 	})
 }
 
@@ -160,6 +175,7 @@ type c11Pair struct {
 	frameComplete []bool
 	wroteTotal    int
 	junked        map[int]bool          // requests the remote answered with junk
+	damaged       map[int]bool          // ... with a damaged reply (a decodable prefix, then garbage)
 	junkEnd       int                   // end offset of the first junk frame (0: none)
 	junkSeen      bool                  // probe bookkeeping
 	replyEnd      map[int]int           // end offset of the honest reply to request id
@@ -178,12 +194,31 @@ func (p *c11Pair) remoteWrite(data []byte, completes bool) bool {
 	return true
 }
 
-// c11Junk returns what the remote writes instead of a reply: kinds 0-2 are
-// well-delimited frames whose body is not a DHT message, kind 3 is a length
-// prefix no message can have (1 GiB) followed by a few bytes.
-func c11Junk(kind int) []byte {
+// c11Junk returns what the remote writes instead of a reply to req: kinds 0-2
+// are well-delimited frames whose body is not a DHT message, kind 3 is a
+// length prefix no message can have (1 GiB) followed by a few bytes, kinds 4
+// and 5 are damaged replies: well-delimited frames that begin like a genuine
+// reply with peer lists and then break off.
+func c11Junk(kind int, req *pb.Message) []byte {
 	var body []byte
 	switch kind {
+	case 4: // a reply with peer lists of its own, then a key field that announces 127 bytes and ends
+		m := c11Msg(req.GetType(), req.GetKey(), c11ID(req))
+		for j := 0; j < 2; j++ {
+			m.CloserPeers = append(m.CloserPeers, &pb.Message_Peer{Id: []byte(fmt.Sprintf("damaged-frame-closer-%d", j))})
+			m.ProviderPeers = append(m.ProviderPeers, &pb.Message_Peer{Id: []byte(fmt.Sprintf("damaged-frame-provider-%d", j))})
+		}
+		b, err := proto.Marshal(m)
+		if err != nil {
+			panic(err)
+		}
+		body = append(b, 0x12, 0x7f)
+	case 5: // the honest reply, cut short by three bytes
+		b, err := proto.Marshal(c11Echo(req.GetType(), req.GetKey(), c11ID(req)))
+		if err != nil {
+			panic(err)
+		}
+		body = b[:len(b)-3]
 	case 0: // invalid wire data
 		body = []byte{0xff, 0xff, 0xff}
 	case 1: // field 2 (key) announces 127 bytes, the frame ends after 2
@@ -215,7 +250,51 @@ func c11ID(m *pb.Message) int {
 	return id
 }
 
-// c11Msg builds the wire message of a request (or the remote's echo of it).
+// c11Echo is the remote's honest reply to request id: an echo of the whole
+// request plus closer-peer and provider-peer lists that depend on the request
+// (0-2 entries each, the entries named after the request).
+func c11Echo(typ pb.Message_MessageType, key []byte, id int) *pb.Message {
+	m := c11Msg(typ, key, id)
+	if id < 0 {
+		return m
+	}
+	for j := 0; j < id%3; j++ {
+		m.CloserPeers = append(m.CloserPeers, &pb.Message_Peer{Id: []byte(fmt.Sprintf("closer-%d-of-r%04d", j, id)), Connection: pb.Message_CONNECTED})
+	}
+	for j := 0; j < (id/3)%3; j++ {
+		m.ProviderPeers = append(m.ProviderPeers, &pb.Message_Peer{Id: []byte(fmt.Sprintf("provider-%d-of-r%04d", j, id)), Addrs: [][]byte{{4, 10, 0, byte(id), byte(j), 6, 0x0f, 0xa1}}})
+	}
+	return m
+}
+
+// c11Show renders a message for a violation text (not with the protobuf text
+// format: its whitespace is deliberately unstable).
+func c11Show(m *pb.Message) string {
+	var b strings.Builder
+	fmt.Fprintf(&b, "%v key=%q", m.GetType(), m.GetKey())
+	if r := m.GetRecord(); r != nil {
+		fmt.Fprintf(&b, " record=%q/%q", r.GetKey(), r.GetValue())
+	}
+	for _, l := range []struct {
+		name  string
+		peers []*pb.Message_Peer
+	}{{"closer", m.GetCloserPeers()}, {"providers", m.GetProviderPeers()}} {
+		fmt.Fprintf(&b, " %s=[", l.name)
+		for i, p := range l.peers {
+			if i > 0 {
+				b.WriteString(" ")
+			}
+			fmt.Fprintf(&b, "%q", p.GetId())
+		}
+		b.WriteString("]")
+	}
+	if n := len(m.ProtoReflect().GetUnknown()); n > 0 {
+		fmt.Fprintf(&b, " +%d unknown bytes", n)
+	}
+	return b.String()
+}
+
+// c11Msg builds the wire message of a request.
 func c11Msg(typ pb.Message_MessageType, key []byte, id int) *pb.Message {
 	m := pb.NewMessage(typ, key, 0)
 	m.Record = &recpb.Record{Key: key, Value: c11Payload(id)}
@@ -239,7 +318,7 @@ func runC11(s *sim.Sim) {
 	deadlines := s.Chance("deadlines", 2, 3)
 	var pairs []*c11Pair
 	fab.OnOpen = func(a, b *simhost.Stream) {
-		pairs = append(pairs, &c11Pair{a: a, b: b, received: map[int]bool{}, answered: map[int]bool{}, junked: map[int]bool{},
+		pairs = append(pairs, &c11Pair{a: a, b: b, received: map[int]bool{}, answered: map[int]bool{}, junked: map[int]bool{}, damaged: map[int]bool{},
 			replyEnd: map[int]int{}, wroteAt: map[int]time.Duration{}, deliveredAt: map[int]time.Duration{}})
 	}
 	h.OpenStream = fab.StreamOpener(func(peer.ID) *simhost.Host { return nil }, nil)
@@ -324,6 +403,7 @@ func runC11(s *sim.Sim) {
 	s.Quiesce()
 
 	everTimedOut := map[int]bool{}
+	compared := map[int]bool{} // successful requests whose reply was compared (probe bookkeeping)
 	sameKeySeen := false
 	// excused[p]: the requests to p that were in flight or queued (started, not
 	// returned) when a disconnect notification for p arrived
@@ -433,6 +513,21 @@ func runC11(s *sim.Sim) {
 			if r.done && r.err == nil && !r.isMsg {
 				if got := c11ID(r.resp); got != r.id {
 					s.Violate("mismatched-reply", "request %d (%v %q) to %s returned the reply to request %d", r.id, r.typ, r.key, r.peer.Name, got)
+				} else if want := c11Echo(r.typ, r.key, r.id); !proto.Equal(r.resp, want) {
+					// (iv-b) ... the whole reply and nothing but the reply
+					s.Violate("reply-altered", "request %d (%v %q) to %s returned a message that is not the remote's reply to it: got {%s}, the remote answered {%s}", r.id, r.typ, r.key, r.peer.Name, c11Show(r.resp), c11Show(want))
+				}
+				if !compared[r.id] {
+					compared[r.id] = true
+					if len(r.resp.GetCloserPeers())+len(r.resp.GetProviderPeers()) > 0 {
+						s.Count("probe_reply_peers_compared")
+					}
+					for _, p := range pairs {
+						if p.a.Remote == r.peer.ID && p.damaged[r.id] {
+							s.Count("probe_success_after_damaged_reply")
+							break
+						}
+					}
 				}
 				// (v) ... and the remote did receive and answer that very request
 				received, answered := false, false
@@ -591,7 +686,7 @@ func runC11(s *sim.Sim) {
 				acts = append(acts, sim.Action{ID: fmt.Sprintf("answer:%s:r%04d", p.b.Name(), id), Do: func() {
 					p.pending = p.pending[1:]
 					// the remote's reply is an echo of the whole request
-					if p.remoteWrite(encodeFrame(c11Msg(req.GetType(), req.GetKey(), id)), !p.junked[id]) {
+					if p.remoteWrite(encodeFrame(c11Echo(req.GetType(), req.GetKey(), id)), !p.junked[id]) {
 						p.answered[id] = true
 						if _, dup := p.replyEnd[id]; !dup {
 							p.replyEnd[id] = p.wroteTotal
@@ -635,11 +730,15 @@ func runC11(s *sim.Sim) {
 					// still follow, on the same stream) or is forgotten
 					if !p.junked[id] {
 						acts = append(acts, sim.Action{ID: fmt.Sprintf("zjunk:%s:r%04d", p.b.Name(), id), Do: func() {
-							kind := s.Draw("junk-kind", 4)
+							kind := s.Draw("junk-kind", 6)
 							if s.Chance("junk-only", 1, 2) {
 								p.pending = p.pending[1:]
 							}
-							if p.remoteWrite(c11Junk(kind), true) {
+							if p.remoteWrite(c11Junk(kind, req), true) {
+								if kind >= 4 {
+									s.Count("fault_damaged_reply")
+									p.damaged[id] = true
+								}
 								s.Count("fault_junk_frame")
 								p.junked[id] = true
 								if p.junkEnd == 0 {
